@@ -600,6 +600,10 @@ class Interp:
             return not self.cond(test.operand, env)
         if isinstance(test, ast.Compare) and len(test.ops) == 1 and isinstance(test.ops[0], (ast.Is, ast.IsNot)) \
                 and isinstance(test.comparators[0], ast.Constant) and test.comparators[0].value is None:
+            if self.cond_hook is not None and isinstance(test.left, ast.Call):
+                r = self.cond_hook(self, test, env)
+                if r is not NotImplemented:
+                    return r
             v = self.ev(test.left, env)
             v = self.resolve(v)
             r = v is not NONE
